@@ -31,7 +31,7 @@ TRUSTED_BASE = ["gen/orders.py: textual extraction of the memory order of each A
 
 def run(tier, seed):
     res = {"violations": [], "broken": [], "coverage": {}}
-    specs = [("mu_mix", {}, 1500, 30000), ("cv_mix", {"VRT_MODE": 0}, 1000, 20000), ("cv_mix", {"VRT_MODE": 1}, 700, 15000),
+    specs = [("muwait_mix", {"VRT_MODE": 5}, 500, 8000), ("muwait_mix", {"VRT_MODE": 6}, 400, 6000), ("cv_mix", {"VRT_MODE": 7}, 400, 6000), ("mix_all", {}, 800, 15000), ("refcount_cv", {}, 200, 3000), ("note_f9", {"VRT_T3": 2}, 300, 5000), ("cv_mixlocks", {}, 300, 5000), ("muall_mix", {}, 400, 6000), ("mu_mix", {}, 1500, 30000), ("cv_mix", {"VRT_MODE": 0}, 1000, 20000), ("cv_mix", {"VRT_MODE": 1}, 700, 15000),
              ("cv_mix", {"VRT_MODE": 2}, 700, 15000), ("once_mix", {}, 1000, 20000), ("counter_mix", {}, 1000, 20000),
              ("note_mix", {}, 1200, 20000), ("note_mix", {"VRT_FAMILY": 4}, 600, 10000), ("waitn_mix", {}, 1200, 20000), ("waitn_mix", {"VRT_KIND": 0}, 500, 10000), ("waitn_mix", {"VRT_KIND": 1}, 500, 10000), ("muwait_mix", {}, 1200, 20000), ("muwait_mix", {"VRT_MODE": 0, "VRT_FINE": 600}, 2000, 40000), ("mu_mix", {"VRT_PLAINPM": 40}, 800, 15000), ("cv_mix", {"VRT_PLAINPM": 40}, 800, 15000),
              ("cv_mix", {"VRT_MODE": 3}, 700, 15000), ("cv_mix", {"VRT_MODE": 4}, 700, 15000), ("cv_mix", {"VRT_MODE": 5}, 700, 15000),
